@@ -153,7 +153,13 @@ def judge(case, drv):
 def replay_case(case):
     drv = Driver()
     try:
-        judge(case, drv)
+        try:
+            judge(case, drv)
+        except fw.Hang:
+            # watchdog candidate: confirm alone with the long limit (three times) before calling it a violation
+            drv.kill()
+            drv = Driver()
+            judge(dict(case, confirm_hang=True), drv)
     finally:
         drv.kill()
 
